@@ -127,13 +127,3 @@ Proof.
   split; [left; reflexivity|]. split; [exists 3; split; [lia|reflexivity]|]. split; [lia|].
   split; [unfold wf_infos; cbn; lia|]. split; [unfold wf_infos; cbn; lia|]. split; [lia|]. split; [lia|]. vm_compute; reflexivity.
 Qed.
-
-(* vmp_apply_dft below n = 8 on the NTT120 family: the VecZnxDft temporary is not a multiple of 64 bytes *)
-Lemma suffices_vmp_apply_dft_small_n_refuted :
-  exists fam n rs a rows ci co size, is_fam fam /\ pow2 n /\ 1 <= a /\ 1 <= rows /\ 1 <= ci /\
-    run_takes (t_vmp_apply_dft fam n a rows ci) (0, halimpl_vmp_apply_dft_tmp_bytes fam n rs a rows ci co size) = None.
-Proof.
-  exists 1, 1, 1, 1, 1, 1, 1, 1.
-  split; [right; reflexivity|]. split; [exists 0; split; [lia|reflexivity]|]. split; [lia|]. split; [lia|]. split; [lia|].
-  vm_compute; reflexivity.
-Qed.
